@@ -171,7 +171,7 @@ class EffectivePotential(ABC):
             resValue[i] = res.fun * scale**4
 
             # Check for presenece of imaginary parts at minimum
-            self.evaluate(Fields((res.x)), T[i])
+            self.evaluate(Fields((resLocation[i])), T[i])
 
         ## Need to cast the field location
         return Fields.castFromNumpy(resLocation), resValue
